@@ -7,7 +7,8 @@
      user[p]   a user / look-alike file (zz_generatedx.go, zz_generated, user.go) is present in p's directory
      out[p][g] "absent" or the content id of <base>.<g>.go  (g ranges over the generators of the model and the
                retired generator "old", whose file is a stale output)
-     sum       gengo.sum: [present, m : package -> recorded hash | "none"]
+     sum       gengo.sum: [present, m : package -> recorded hash | "none", canon : the text is exactly one sorted
+               "path hash" line per entry (damage can leave every entry readable and the text a mess)]
    plus run control (pc, args, queue, cur, ...) while Execute is in progress.
 
    The directory hash is structural: it covers everything below the directory - nested package directories
@@ -26,6 +27,8 @@ CONSTANTS Pkgs,           \* set of package names
           Under,          \* package -> set of packages whose directories lie below its directory
           RootPkg,        \* the package in the module root, or "none"
           HashCoversSum,  \* BOOLEAN: the root package's hash covers gengo.sum (the code before the fix)
+          SaveAlways,     \* BOOLEAN: a successful All run always rewrites gengo.sum (the code); FALSE = only when the mapping changed
+          KeepAfterDefers,\* BOOLEAN: whether a generator's file is kept is decided after its deferred callbacks ran (the code)
           BehChoices,     \* set of behaviour configurations [Pkgs -> [gens -> behaviour]]
           ArgsMenu,       \* set of run arguments [all, force, entry, gens]
           MaxRuns, MaxEnv, MaxSrc, ConvergeBound
@@ -53,7 +56,7 @@ FS == [src |-> src, user |-> user, out |-> out, sum |-> sum]
 Own(p) == <<src[p], user[p], out[p]>>
 HashOf(p) == <<Own(p), [q \in Under[p] |-> Own(q)], IF p = RootPkg /\ HashCoversSum THEN <<sum>> ELSE <<"-">>>>
 
-NoSum == [present |-> FALSE, m |-> [p \in Pkgs |-> None]]
+NoSum == [present |-> FALSE, m |-> [p \in Pkgs |-> None], canon |-> TRUE]
 
 (* ---------------------------------------------------------------- selection *)
 RECURSIVE Closure(_)
@@ -73,6 +76,8 @@ ExpectedOut(p, a, before) ==
              ELSE IF Ignored(beh[p][g]) THEN before.out[p][g]
              ELSE Absent
         ELSE Absent]
+
+RenderedByTypes(b) == Rendered(b) /\ b # "defer_only"      \* something was rendered before the deferred callbacks ran
 
 (* ---------------------------------------------------------------- initial state *)
 Init == /\ src = [p \in Pkgs |-> 0] /\ user = [p \in Pkgs |-> FALSE]
@@ -95,16 +100,19 @@ EnvStep == pc = "idle" /\ envs < MaxEnv /\ envs' = envs + 1 /\ quiet' = 0 /\ pc'
 
 EditSrc(p)    == EnvStep /\ src[p] < MaxSrc /\ src' = [src EXCEPT ![p] = @ + 1] /\ UNCHANGED <<user, out, sum>>
 ToggleUser(p) == EnvStep /\ user' = [user EXCEPT ![p] = ~@] /\ UNCHANGED <<src, out, sum>>
+(* a file under the name of a generator that still runs: left by an earlier version of it, restored from a backup ... *)
+PlantPrev(p, g) == EnvStep /\ out[p][g] # <<"planted", p, g>> /\ out' = [out EXCEPT ![p][g] = <<"planted", p, g>>] /\ UNCHANGED <<src, user, sum>>
 PlantStale(p) == EnvStep /\ out[p]["old"] = Absent /\ out' = [out EXCEPT ![p]["old"] = <<"stale", p>>] /\ UNCHANGED <<src, user, sum>>
 DelOut(p, g)  == EnvStep /\ out[p][g] # Absent /\ out' = [out EXCEPT ![p][g] = Absent] /\ UNCHANGED <<src, user, sum>>
 DelSum        == EnvStep /\ sum.present /\ sum' = NoSum /\ UNCHANGED <<src, user, out>>
 CorruptSum(p) == EnvStep /\ sum.present /\ UNCHANGED <<src, user, out>>
                  /\ \/ sum' = [sum EXCEPT !.m[p] = None]                   \* a dropped / truncated line
                     \/ sum' = [sum EXCEPT !.m[p] = <<"bogus">>]              \* a wrong hash
-                    \/ sum' = [present |-> TRUE, m |-> [q \in Pkgs |-> None]]   \* garbage: readable, no entries
+                    \/ sum' = [present |-> TRUE, m |-> [q \in Pkgs |-> None], canon |-> FALSE]   \* garbage: readable, no entries
+NoiseSum      == EnvStep /\ sum.present /\ sum.canon /\ sum' = [sum EXCEPT !.canon = FALSE] /\ UNCHANGED <<src, user, out>>   \* shuffled / duplicated / junk lines: every entry still readable
 
-Env == \/ \E p \in Pkgs : EditSrc(p) \/ ToggleUser(p) \/ PlantStale(p) \/ CorruptSum(p) \/ \E g \in GenSet : DelOut(p, g)
-       \/ DelSum
+Env == \/ \E p \in Pkgs : EditSrc(p) \/ ToggleUser(p) \/ PlantStale(p) \/ CorruptSum(p) \/ \E g \in GenSet : DelOut(p, g) \/ PlantPrev(p, g)
+       \/ DelSum \/ NoiseSum
 
 (* ---------------------------------------------------------------- a run *)
 StartRun(a) ==
@@ -155,7 +163,8 @@ Callback ==
     /\ LET g == args.gens[gi] IN
        \/ (* no fault here *)
           /\ IF ci < 2 THEN ci' = ci + 1 /\ UNCHANGED <<gi, kept, pc>>
-             ELSE /\ kept' = IF Rendered(beh[cur][g]) \/ Ignored(beh[cur][g]) \/ g \in badg THEN kept \cup {g} ELSE kept
+             ELSE /\ kept' = IF (IF KeepAfterDefers THEN Rendered(beh[cur][g]) ELSE RenderedByTypes(beh[cur][g])) \/ Ignored(beh[cur][g]) \/ g \in badg
+                            THEN kept \cup {g} ELSE kept
                   /\ ci' = 0 /\ gi' = gi + 1
                   /\ pc' = IF gi = Len(args.gens) THEN "write" ELSE "call"
           /\ UNCHANGED <<fs, beh, args, queue, cur, badg, written, staleSet, hload, prev, faulted, regen, snap0, counters>>
@@ -199,7 +208,9 @@ AllDone == /\ pc = "next" /\ queue = <<>>
            /\ UNCHANGED <<fs, beh, runctl, counters>>
 
 SaveSum == /\ pc = "save"
-           /\ sum' = [present |-> TRUE, m |-> hload]         \* hashes AS LOADED, one entry per local package
+           /\ sum' = IF SaveAlways \/ ~sum.present \/ sum.m # hload
+                     THEN [present |-> TRUE, m |-> hload, canon |-> TRUE]         \* hashes AS LOADED, one entry per local package
+                     ELSE sum
            /\ pc' = "finish"
            /\ UNCHANGED <<src, user, out, beh, runctl, counters>>
 
@@ -241,6 +252,6 @@ FineRefinesMacro == (pc = "failed" /\ failInfo.kind = "syntax") =>
 C08_SkipOnlyIfUnchanged == [][(pc = "next" /\ pc' = "next" /\ queue' # queue /\ regen' = regen) =>
                                  (~args.force /\ prev.present /\ prev.m[Head(queue)] = HashOf(Head(queue)))]_vars
 C08_SumAfterSuccess == (pc = "finished" /\ args.all) =>
-                          (sum.present /\ \A p \in Pkgs : sum.m[p] = IF p \in Local(args) THEN hload[p] ELSE None)
+                          (sum.present /\ sum.canon /\ \A p \in Pkgs : sum.m[p] = IF p \in Local(args) THEN hload[p] ELSE None)
 C08_Converges == quiet >= ConvergeBound => (lastRegen = {} /\ ~lastChanged)
 =============================================================================
